@@ -65,7 +65,9 @@ class C17(L1Prop):
                 ops += [f"{at()} POST av hyph=nil hyph={c} history b:0,{c}" for c in (1, 2, 3)]
                 ops += [f"{at()} GET gcv hyph=nil hyph={c} absent e" for c in (3, 1, 2)]
             for c in (1, 2, 3):
-                ops += [f"{at()} POST av hyph={'latest:%d' % c if keep else 'nil'} hyph={c} history b:1,{c}",
+                # (every third configuration: the clients' histories start on a parent the server has never stored)
+                first_par = (f"latest:{c}" if keep else ("$p%d" % c if k % 3 == 2 else "nil"))
+                ops += [f"{at()} POST av hyph={first_par} hyph={c} history b:1,{c}",
                         f"{at()} POST av hyph=latest:{c} hyph={c} history chunks:2,3",
                         f"{at()} POST as hyph=latest:{c} hyph={c} snapshot b:9,{c}"]
                 mid = r.randrange(1, 8)
